@@ -12,7 +12,7 @@ from datetime import date, timedelta
 from typing import Any, Dict, List, Optional
 
 from rpv import families
-from rpv.cli_core import cli_histories, cli_profile
+from rpv.cli_core import cli_histories, cli_profile, generator_crash
 from rpv.drive_cli import Workspace
 from rpv.gen import ALL_IN_TYPES, OUT_TYPES, parse_ts
 from rpv.oracle.jp import JPStats, check_jp_report
@@ -112,6 +112,10 @@ def _one(ctx: Any, case: Dict[str, Any], name: str) -> None:
         ctx.count("executions")
         ctx.count("valid_cases")
         if res.exit != 0:
+            crash = generator_crash(res.stderr, "tax_report_jp.py")
+            if crash:
+                ctx.violation("jp.generator-crashed", {"error": crash}, case)
+                return
             ctx.count("unobservable")
             ctx.tag("tag_unobservable", f"cli exit {res.exit}: {res.stderr.strip().splitlines()[-1][:140] if res.stderr.strip() else ''}")
             return
